@@ -1102,6 +1102,20 @@ fn c12(t: &[&str], out: &str) -> R {
             if o.len() != 3 || o[1].parse::<usize>().ok() != Some(want) {
                 return Err(format!("Cube::all({}): expected {} cubes, implementation says `{}`", n, want, out));
             }
+            // each of the 3^n non-contradictory cubes exactly once: enumerate the real iterator
+            let mut seen: HashSet<(u32, u32)> = HashSet::new();
+            for cb in volute::sop::Cube::all(n) {
+                let r = cube_raw(&cb);
+                if r.0 & r.1 != 0 || ((r.0 | r.1) as u64) >> n != 0 {
+                    return Err(format!("Cube::all({}) yields {:x}/{:x}, not a cube over {} variables", n, r.0, r.1, n));
+                }
+                if !seen.insert(r) {
+                    return Err(format!("Cube::all({}) yields the cube {:x}/{:x} twice", n, r.0, r.1));
+                }
+            }
+            if seen.len() != want {
+                return Err(format!("Cube::all({}) yields {} distinct cubes instead of {}", n, seen.len(), want));
+            }
             Ok(true)
         }
         "nthvar" => {
@@ -1218,6 +1232,20 @@ fn c13(t: &[&str], out: &str) -> R {
             let o: Vec<&str> = out.split_whitespace().collect();
             if o.len() != 3 || o[1].parse::<usize>().ok() != Some(1usize << (n + 1)) {
                 return Err(format!("Ecube::all({}): expected {} terms, implementation says `{}`", n, 1usize << (n + 1), out));
+            }
+            // each of the 2^(n+1) exclusive cubes exactly once: enumerate the real iterator
+            let mut seen: HashSet<(u32, bool)> = HashSet::new();
+            for e in volute::sop::Ecube::all(n) {
+                let r = ecube_raw(&e);
+                if (r.0 as u64) >> n != 0 {
+                    return Err(format!("Ecube::all({}) yields a term over a variable >= {}: {:x}/{}", n, n, r.0, r.1));
+                }
+                if !seen.insert(r) {
+                    return Err(format!("Ecube::all({}) yields the term {:x}/{} twice", n, r.0, show_bool(r.1)));
+                }
+            }
+            if seen.len() != 1usize << (n + 1) {
+                return Err(format!("Ecube::all({}) yields {} distinct terms instead of {}", n, seen.len(), 1usize << (n + 1)));
             }
             Ok(true)
         }
